@@ -1177,7 +1177,11 @@ int main(int argc, char** argv)
       p += 9;
       std::string cs = doc.substr(p, doc.find('"', p) - p);
       mallopt(M_PERTURB, 85);
-      return replay_case([&](Ctx & c) { replay_one(cs, c); });
+      int rc = replay_case([&](Ctx & c) { replay_one(cs, c); });
+      unlink(wfile(".lp").c_str());
+      unlink(wfile(".mps").c_str());
+      if(rmdir(g_outdir.c_str()) != 0) {}      // only succeeds for the directory parse_args created for this replay
+      return rc;
    }
    bool thorough = args.tier == "thorough";
    Report rep(args, "exploration", thorough ? 5400 : 900);
